@@ -46,6 +46,27 @@ def _ctype_word(c):
 _CTYPE_TABLE = [_ctype_word(i - 128) if i >= 128 else 0 for i in range(384)]
 
 
+def c_tolower(c):
+    """ISO C 7.4.2.1 in the C locale, as a total function on int: an upper-case letter maps to its lower-case letter, every other
+    value (EOF, the other bytes, and the negative values a signed char produces) to itself"""
+    return c + 32 if 65 <= c <= 90 else c
+
+
+def c_toupper(c):
+    """ISO C 7.4.2.2 in the C locale, total on int"""
+    return c - 32 if 97 <= c <= 122 else c
+
+
+# glibc's __ctype_tolower_loc()/__ctype_toupper_loc() tables (int32, indexed -128..255): what <ctype.h> inlines when optimising
+_TOLOWER_TABLE = [c_tolower(i - 128) for i in range(384)]
+_TOUPPER_TABLE = [c_toupper(i - 128) for i in range(384)]
+
+# the classification functions of <ctype.h> called as functions (`(isdigit)(c)`, a function pointer, or a libc whose <ctype.h> has no
+# macros): the bit of the same table the macros read
+CTYPE_FUNCS = {'isupper': 0x100, 'islower': 0x200, 'isalpha': 0x400, 'isdigit': 0x800, 'isxdigit': 0x1000, 'isspace': 0x2000,
+               'isprint': 0x4000, 'isgraph': 0x8000, 'isblank': 0x1, 'iscntrl': 0x2, 'ispunct': 0x4, 'isalnum': 0x8}
+
+
 def schar(b):
     b &= 0xff
     return b - 256 if b > 127 else b
@@ -292,6 +313,26 @@ def make_models(int_value=None, on_float=None, extra=None, errno0=0):
     def m_ctype(it, ctx, n, a):
         return _Ref(_ValPlace(ptr(mem(2, _CTYPE_TABLE), 128)))
 
+    def m_tolower_loc(it, ctx, n, a):
+        return _Ref(_ValPlace(ptr(mem(4, _TOLOWER_TABLE), 128)))
+
+    def m_toupper_loc(it, ctx, n, a):
+        return _Ref(_ValPlace(ptr(mem(4, _TOUPPER_TABLE), 128)))
+
+    def _charmap(fname, f):
+        def m(it, ctx, n, a):
+            return f(_need_int(a[0], '%s argument' % fname))
+        return m
+
+    def _charclass(fname, bit):
+        def m(it, ctx, n, a):
+            c = _need_int(a[0], '%s argument' % fname)
+            return (_ctype_word(c) & bit) if 0 <= c <= 255 else 0
+        return m
+
+    def m_isascii(it, ctx, n, a):
+        return 1 if (_need_int(a[0], 'isascii argument') & ~0x7f) == 0 else 0
+
     def _strtoint(signed):
         def m(it, ctx, n, a):
             bs = cbytes(a[0])
@@ -460,6 +501,11 @@ def make_models(int_value=None, on_float=None, extra=None, errno0=0):
         'strtold': _strtofloat('strtold'), 'strtod': _strtofloat('strtod'), 'strtof': _strtofloat('strtof'),
         'calloc': m_calloc, 'malloc': m_calloc, 'realloc': m_realloc, 'memcpy': m_memcpy, '__errno_location': m_errno,
     }
+    models.update({'tolower': _charmap('tolower', c_tolower), 'toupper': _charmap('toupper', c_toupper),
+                   '__ctype_tolower_loc': m_tolower_loc, '__ctype_toupper_loc': m_toupper_loc,
+                   'isascii': m_isascii, 'toascii': _charmap('toascii', lambda c: c & 0x7f)})
+    for _f, _bit in CTYPE_FUNCS.items():
+        models[_f] = _charclass(_f, _bit)
     if extra:
         models.update(extra)
     return models
